@@ -162,6 +162,30 @@ class Roles:
             return out
         return self._c("mark", find)
 
+    def is_mark_all(self, cb):
+        """cb is a MARK-ALL primitive of the waker list: it takes nothing but the list, and its ENQ site sits in a loop over
+        `0..(*header).len` with the enqueued node being `slice_start + i` for the loop's own index i -- `for i in 0..len
+        { MARK(i) }` moved behind the list's interface."""
+        if cb is None or cb.arg_count != 1 or cb.path not in {m.path for m in self.mark_fns}:
+            return False
+        fl = self.ctx.flow(cb)
+        for bb, t, fn in direct_sites(cb, RE_ENQUEUE):
+            if not any(bb in body for body in cb.loops().values()):
+                continue
+            node = fl.operand_expr(t["args"][-1])
+            for c in expr_calls(node):
+                if c[1] and "Range" in c[1] and c[1].endswith("::next"):
+                    it = strip_refs(c[2][0])
+                    while it[0] == "call" and (it[1] or "").endswith("into_iter"):
+                        it = strip_refs(it[2][0])
+                    if not (it[0] == "agg" and it[1].endswith("Range::Range")):
+                        continue
+                    lo, hi = strip_refs(it[2][0]), strip_refs(it[2][1])
+                    if lo[0] == "const" and lo[2] == "0" and hi[0] == "proj" and hi[2] and hi[2][-1] == ".len" and \
+                            any(re.search(r"mut_ptr::<impl \*mut .*>::add$", x[1] or "") for x in expr_calls(node)):
+                        return True
+        return False
+
     @property
     def mark_fn(self):
         m = self.mark_fns
